@@ -96,6 +96,8 @@ int main(int, char**) {
       if (prog[strlen(prog) - 1] == '|') threads.push_back({});
     }
     const int NT = (int)threads.size();
+    long total_retires = 0;
+    for (auto& th : threads) for (auto& o : th) if (o.k == 'R') total_retires += o.arg > 0 ? o.arg : 1;
     World w; W = &w;
     w.depth.assign(NT, 0); w.seq.assign(NT, 0); w.entered.assign(NT, 0); w.closing.assign(NT, 0);
     w.nslots = NT;
@@ -111,7 +113,10 @@ int main(int, char**) {
     const size_t batch = std::min<size_t>(1024, cap);
     auto raw_pop = [&] { return static_cast<std::verif_atomic<size_t>::B&>(gc->_queue._next_pop_index).load(std::memory_order_relaxed); };
     size_t ncalls_at_drop = 0; (void)ncalls_at_drop;
-    struct StopRec { uint64_t b, e; bool joined; std::vector<int> missing; };
+    struct StopRec { uint64_t b, e; bool joined; std::vector<int> missing, missing_noregion; };
+    struct Region { int a; uint64_t b, e; };   // widest interval: before lock() was called .. after unlock() returned
+    std::vector<Region> regions;
+    std::vector<long> region_of(NT, -1);
     std::vector<StopRec> stops;
     int finished = 0;
 
@@ -141,6 +146,7 @@ int main(int, char**) {
               op.res = "R";
             } break;
             case 'L':
+              if (w.depth[t] == 0) { regions.push_back(Region{t, verif::stamp(), 0}); region_of[t] = (long)regions.size() - 1; }
               acc[t].lock();
               w.depth[t] += 1;
               if (w.depth[t] == 1) w.entered[t] = 1;
@@ -151,7 +157,7 @@ int main(int, char**) {
                 if (w.depth[t] == 1) w.closing[t] = 1;
                 acc[t].unlock();
                 w.depth[t] -= 1;
-                if (w.depth[t] == 0) { w.entered[t] = 0; w.closing[t] = 0; w.seq[t] += 1; }
+                if (w.depth[t] == 0) { w.entered[t] = 0; w.closing[t] = 0; w.seq[t] += 1; regions[region_of[t]].e = verif::stamp(); }
                 op.res = "U";
               } else { verif::point(verif::K_USER, 0, nullptr, "skip", 0); op.res = "-"; }
               break;
@@ -162,7 +168,7 @@ int main(int, char**) {
             } break;
             case 'S': {
               bool j = gc->_gc_thread.joinable();
-              StopRec sr{verif::stamp(), 0, j, {}};
+              StopRec sr{verif::stamp(), 0, j, {}, {}};
               gc->stop();
               sr.e = verif::stamp();
               if (j) pushes_returned++;
@@ -173,7 +179,10 @@ int main(int, char**) {
                 if (r.e != 0 && r.e < sr.b && r.calls == 0) {
                   bool raced_earlier = false;
                   for (auto& s0 : stops) if (s0.joined && r.b < s0.e && r.e > s0.b) raced_earlier = true;
-                  if (!raced_earlier) sr.missing.push_back((int)x);
+                  // finding F2 needs a region that was entered before the retirement and is open during this stop()
+                  bool region = false;
+                  for (auto& g : regions) if (g.b < r.e && g.b < sr.e && (g.e == 0 || g.e > sr.b)) region = true;
+                  if (!raced_earlier) (region ? sr.missing : sr.missing_noregion).push_back((int)x);
                 }
               }
               stops.push_back(sr);
@@ -192,7 +201,7 @@ int main(int, char**) {
         finished++;
       });
     }
-    verif::Options opt; opt.seed = seed; opt.strategy = strategy; opt.max_steps = 3000000; opt.step_ns = step_ns ? step_ns : 50;
+    verif::Options opt; opt.seed = seed; opt.strategy = strategy; opt.max_steps = 300000 + 600 * (uint64_t)total_retires; opt.step_ns = step_ns ? step_ns : 50;
     verif::Result r = verif::run(bodies, opt);
     bool still_joinable = gc->_gc_thread.joinable();
     acc.clear();
@@ -209,14 +218,15 @@ int main(int, char**) {
       Retired& x = w.retired[w.call_order[c]];
       out += (c ? "," : "") + std::to_string(x.t) + "." + std::to_string(x.i) + (x.k ? ("#" + std::to_string(x.k)) : "") + "@" + w.call_open[c];
     }
-    bool once = true, notearly = true, stopall = true, racing = true;
-    std::string d_once, d_early, d_stop, d_race, d_late;
+    bool once = true, notearly = true, stopall = true, stopallnr = true, racing = true;
+    std::string d_once, d_early, d_stop, d_stopnr, d_race, d_late;
     auto name = [&](Retired& x) { return std::to_string(x.t) + "." + std::to_string(x.i) + (x.k ? ("#" + std::to_string(x.k)) : ""); };
     for (auto& x : w.retired) {
       if (x.calls > 1) { once = false; d_once += name(x) + "x" + std::to_string(x.calls) + " "; }
       if (x.early) { notearly = false; d_early += name(x) + " "; }
     }
     for (auto& s : stops) for (int x : s.missing) { stopall = false; if (d_stop.size() < 200) d_stop += name(w.retired[x]) + " "; }
+    for (auto& s : stops) for (int x : s.missing_noregion) { stopallnr = false; if (d_stopnr.size() < 200) d_stopnr += name(w.retired[x]) + " "; }
     // order of calls: one collector thread, FIFO queue: calls of one client thread's retirements keep their order
     bool fifo = true;
     {
@@ -230,11 +240,11 @@ int main(int, char**) {
       if (raced) { racing = false; if (d_race.size() < 200) d_race += name(x) + " "; }
       else if (!before_join) { if (d_late.size() < 200) d_late += name(x) + " "; }
     }
-    printf("%s ok steps=%llu pre=%llu | %s | once=%d notearly=%d stopall=%d racing=%d fifo=%d qbound=%d bound=%d running=%d ; cap=%zu retired=%zu calls=%zu"
-           " twice=[%s] early=[%s] uncalled-at-stop=[%s] raced-uncalled=[%s] late-uncalled=[%s]\n",
-           id, (unsigned long long)r.steps, (unsigned long long)r.preemptions, out.c_str(), once, notearly, stopall, racing, fifo,
+    printf("%s ok steps=%llu pre=%llu | %s | once=%d notearly=%d stopall=%d stopallnr=%d racing=%d fifo=%d qbound=%d bound=%d running=%d ; cap=%zu retired=%zu calls=%zu"
+           " twice=[%s] early=[%s] uncalled-at-stop=[%s] uncalled-at-stop-no-region=[%s] raced-uncalled=[%s] late-uncalled=[%s]\n",
+           id, (unsigned long long)r.steps, (unsigned long long)r.preemptions, out.c_str(), once, notearly, stopall, stopallnr, racing, fifo,
            qbound, bound, still_joinable ? 1 : 0, cap, w.retired.size(), w.call_order.size(), d_once.c_str(), d_early.c_str(),
-           d_stop.c_str(), d_race.c_str(), d_late.c_str());
+           d_stop.c_str(), d_stopnr.c_str(), d_race.c_str(), d_late.c_str());
     fflush(stdout);
     W = nullptr;
   }
